@@ -524,34 +524,43 @@ theorem tcSB_sound : ∀ (n : Nat),
               | some t => exact ⟨t, (tc_sound Φ _ n a none t ht).1⟩
             · cases h
           · split at h
-            · rename_i bsig hb
+            · rename_i hn; subst hn
               split at h
-              · rename_i tys hinf
-                split at h
-                · rename_i hc
-                  simp only [Bool.and_eq_true] at hc
-                  simp at h; subst h
-                  obtain ⟨hl, hp⟩ := inferAll_spec _ args tys hinf
-                  obtain ⟨ha1, ha2⟩ := arityOk_spec hc.1
-                  refine .callBi Gs name args bsig tys hb ha1 ha2 hl ?_ ?_
-                  · intro i a ta ha hta
-                    exact (tc_sound Φ _ n a none ta (hp i a ta ha hta)).1
-                  · intro i ta hta
-                    have := predsOk_spec bsig tys 0 hc.2 i ta hta
-                    simpa using this
-                · cases h
+              · rename_i hc
+                simp at h; subst h
+                refine .callTest Gs args ?_
+                intro a ha
+                exact (tc_sound Φ _ n a _ _ (beq_opt (List.all_eq_true.mp hc a ha))).1
               · cases h
             · split at h
-              · rename_i sig hphi
+              · rename_i bsig hb
                 split at h
-                · rename_i hc
-                  simp only [Bool.and_eq_true, decide_eq_true_eq] at hc
-                  simp at h; subst h
-                  refine .callFn Gs name args sig hphi hc.1 ?_
-                  intro i a pt ha hpt
-                  exact (tc_sound Φ _ n a (some pt) pt (beq_opt (zip_all args sig.params _ hc.2 i a pt ha hpt))).1
+                · rename_i tys hinf
+                  split at h
+                  · rename_i hc
+                    simp only [Bool.and_eq_true] at hc
+                    simp at h; subst h
+                    obtain ⟨hl, hp⟩ := inferAll_spec _ args tys hinf
+                    obtain ⟨ha1, ha2⟩ := arityOk_spec hc.1
+                    refine .callBi Gs name args bsig tys hb ha1 ha2 hl ?_ ?_
+                    · intro i a ta ha hta
+                      exact (tc_sound Φ _ n a none ta (hp i a ta ha hta)).1
+                    · intro i ta hta
+                      have := predsOk_spec bsig tys 0 hc.2 i ta hta
+                      simpa using this
+                  · cases h
                 · cases h
-              · cases h
+              · split at h
+                · rename_i sig hphi
+                  split at h
+                  · rename_i hc
+                    simp only [Bool.and_eq_true, decide_eq_true_eq] at hc
+                    simp at h; subst h
+                    refine .callFn Gs name args sig hphi hc.1 ?_
+                    intro i a pt ha hpt
+                    exact (tc_sound Φ _ n a (some pt) pt (beq_opt (zip_all args sig.params _ hc.2 i a pt ha hpt))).1
+                  · cases h
+                · cases h
         | _ => simp at h
     · intro Gs b h
       cases b with
@@ -568,12 +577,14 @@ global types the harness takes from the real parser — satisfies the hypotheses
 `program_never_goes_wrong` -/
 theorem checkProg_sound (sigs : List (Str × FSig)) (globals : List (Str × Ty)) (prog : Program F) (fuel : Nat)
     (h : checkProg sigs globals prog fuel = true) :
-    ProgOk (fenvOf sigs) (envOf globals) prog ∧ BTyped (fenvOf sigs) (envOf globals) none [] prog.stmts ∧ GgOk (envOf globals) := by
+    ProgOk (fenvOf sigs) (envOf globals) prog ∧ BTyped (fenvOf sigs) (envOf globals) none [] prog.stmts ∧ GgOk (envOf globals) ∧
+      HandlersOk (fenvOf sigs) (envOf globals) prog := by
   unfold checkProg at h
   simp only [Bool.and_eq_true] at h
-  obtain ⟨⟨⟨hall, hst⟩, he1⟩, he2⟩ := h
+  obtain ⟨⟨⟨⟨hall, hst⟩, hhd⟩, he1⟩, he2⟩ := h
   refine (fun (x : ProgOk (fenvOf sigs) (envOf globals) prog ∧ BTyped (fenvOf sigs) (envOf globals) none [] prog.stmts) =>
-    ⟨x.1, x.2, ⟨fun t ht => by simpa using optAll_spec he1 t ht, fun t ht => by simpa using optAll_spec he2 t ht⟩⟩) ?_
+    ⟨x.1, x.2, ⟨fun t ht => by simpa using optAll_spec he1 t ht, fun t ht => by simpa using optAll_spec he2 t ht⟩,
+      fun hd hm => (tcSB_sound (fenvOf sigs) (envOf globals) none fuel).2 _ _ (List.all_eq_true.mp hhd hd hm)⟩) ?_
   have hall' := List.all_eq_true.mp hall
   have entry : ∀ name sig, fenvOf sigs name = some sig → (name, sig) ∈ sigs :=
     fun name sig hs => lookup_mem name sigs sig hs
@@ -600,10 +611,24 @@ theorem checked_program_never_goes_wrong (ops : NumOps F) (ext : Ext F) (hx : Ex
     (sigs : List (Str × FSig)) (globals : List (Str × Ty)) (prog : Program F) (cfuel : Nat)
     (h : checkProg sigs globals prog cfuel = true)
     (fuel : Nat) (st st' : St F) (S : Store) (hok : StOk S [] (envOf globals) st) (w : String) :
-    execStmts ops ext prog fuel prog.stmts st ≠ .err (.internal w) st' ∧
+    (w ≠ "ErrTest" → execStmts ops ext prog fuel prog.stmts st ≠ .err (.internal w) st') ∧
     execStmts ops ext prog fuel prog.stmts st ≠ .err (.goPanic w) st' := by
-  obtain ⟨hp, hb, hg⟩ := checkProg_sound sigs globals prog cfuel h
+  obtain ⟨hp, hb, hg, _⟩ := checkProg_sound sigs globals prog cfuel h
   exact program_never_goes_wrong ops ext prog (fenvOf sigs) (envOf globals) hx hg hp fuel st st' S hb hok w
+
+/-- … and neither do its event handlers: delivering any payload to a handler of a checked program, in a
+well-typed state, ends in a well-typed state or in a documented outcome -/
+theorem checked_handler_sound (ops : NumOps F) (ext : Ext F) (hx : ExtOk ext)
+    (sigs : List (Str × FSig)) (globals : List (Str × Ty)) (prog : Program F) (cfuel : Nat)
+    (h : checkProg sigs globals prog cfuel = true)
+    (fuel : Nat) (name : Str) (payload : List (Val F)) (st : St F) (Gs : List SEnv) (S : Store)
+    (hok : StOk S Gs (envOf globals) st) (hd : Handler F) (hfind : prog.handlers.find? (fun h => h.name == name) = some hd)
+    (hlen : hd.params.length ≤ payload.length) :
+    match (handleEvent ops ext prog fuel name payload st).1 with
+    | .err o => Doc o
+    | _ => ∃ S', Grows S S' ∧ StOk S' Gs (envOf globals) (handleEvent ops ext prog fuel name payload st).2 := by
+  obtain ⟨hp, _, hg, hh⟩ := checkProg_sound sigs globals prog cfuel h
+  exact handler_sound ops ext prog (fenvOf sigs) (envOf globals) hx hg hp hh fuel name payload st Gs S hok hd hfind hlen
 
 /-- the globals every program starts with and their types -/
 def builtinGlobals : List (Str × Ty) := [(lit "err", .bool), (lit "errmsg", .str), (lit "pi", .num)]
